@@ -405,6 +405,20 @@ func RunStream(c SCase) error {
 		} else {
 			rejected++
 		}
+		// OutputOffset counts the bytes produced, flushed or not, so it cannot
+		// depend on the writer kind, on flush positions or on write errors.
+		var o0 int64
+		for i, x := range encs {
+			var o int64
+			if p := rt.Guard(func() { o = x.e.OutputOffset() }); p != nil {
+				return fmt.Errorf("%s: OutputOffset panicked after call #%d: %v", x.name, calls, p)
+			}
+			if i == 0 {
+				o0 = o
+			} else if o != o0 {
+				return fmt.Errorf("%s: OutputOffset is %d after call #%d %s, but %d for the Encoder over *bytes.Buffer given the same calls (faults fired so far: %d)", x.name, o, calls, op, o0, firedSoFar(x.fw))
+			}
+		}
 		return nil
 	}
 	for _, op := range c.Ops {
@@ -473,3 +487,10 @@ func RunStream(c SCase) error {
 
 // mTop is the number of completed top-level values (each ends with one flush).
 func mTop(m *c06.Model) int64 { _, n := m.Level(0); return n }
+
+func firedSoFar(fw *FaultW) int {
+	if fw == nil {
+		return 0
+	}
+	return fw.Fired
+}
